@@ -777,7 +777,7 @@ def m_dfinal(I, st, callee, argv, depth, t, dty):
     n = hash_out_len(callee.get('self_ty') or (callee.get('args') or [''])[0])
     term = App('Hash', Cat(h[1])) if (h is not None and h[0] == 'hasher') else App('Hash', freeze(st, h))
     if n:
-        terms.LEN.setdefault(term, n)
+        terms.note_len(term, n)
     yield st, term
 
 
@@ -817,7 +817,7 @@ def mac_term(st, m, self_ty=None):
         term = App('Mac', freeze(st, m))
     n = hash_out_len(self_ty)
     if n:
-        terms.LEN.setdefault(term, n)
+        terms.note_len(term, n)
     return term
 
 
@@ -881,7 +881,7 @@ def do_expand(I, st, hk, info, okm_ref, callee, t):
     n = hash_out_len(callee.get('self_ty') or '')
     val = App('Expand', prk, info, Int(L) if L is not None else Sym('?'))
     if L is not None:
-        terms.LEN.setdefault(val, L)
+        terms.note_len(val, L)
 
     def write(s):
         if okm_ref is not None and okm_ref[0] == 'ref':
@@ -940,7 +940,7 @@ def m_exfin(I, st, callee, argv, depth, t, dty):
     prk = App('Extract', e[1], Cat(e[2])) if (e is not None and e[0] == 'extract') else App('Extract', freeze(st, e))
     n = hash_out_len(callee.get('self_ty') or '')
     if n:
-        terms.LEN.setdefault(prk, n)
+        terms.note_len(prk, n)
     yield st, ('tuple', (prk, ('hkdf', prk)))
 
 
@@ -957,9 +957,7 @@ def m_fill(I, st, callee, argv, depth, t, dty):
     rng = rng_term(st, argv[0])
     dst = argv[1]
     L = tlen(bytes_of(st, dst))
-    val = App('Rng', rng, Int(k))
-    if L is not None:
-        terms.LEN.setdefault(val, L)
+    val = App('Rng', rng, Int(k), Int(L) if L is not None else Sym('?'))
     if dst is not None and dst[0] == 'ref':
         I.write_res(st, ('cell', dst[1], dst[2]), val)
     st.ev('rng', 'fill_bytes', rng, k, L, span(t))
@@ -975,7 +973,7 @@ def m_next_u(I, st, callee, argv, depth, t, dty):
     st.rng += 1
     rng = rng_term(st, argv[0])
     st.ev('rng', callee['name'], rng, k, None, span(t))
-    yield st, App('Rng', rng, Int(k))
+    yield st, App('Rng', rng, Int(k), Sym(callee['name']))
 
 
 # ---- voprf ---------------------------------------------------------------------------------------------------------
@@ -985,7 +983,7 @@ def m_vblind(I, st, callee, argv, depth, t, dty):
     st.rng += 1
     inp = bytes_of(st, argv[0])
     rng = rng_term(st, argv[1])
-    blind = App('Rng', rng, Int(k))
+    blind = App('Rng', rng, Int(k), Sym('scalar'))
     st.ev('rng', 'voprf-blind', rng, k, None, span(t))
     test = App('voprf::blind', inp, blind)
     for s2, name, payload in I.fork_result(st, test):
